@@ -16,10 +16,21 @@ def report : String :=
   let badMeth := (methods.filter isGenerated).filter fun m => !methodOk TA registry schemaApi m
   let badWrap := wrappers.filter fun w => !(wrapperOk TA registry schemaApi w && wrapperNames.contains w.schemaName)
   let extra := extraIds.filterMap fun id => (registry.find id).map fun c => c.name
+  let badNames := (apiDefs ++ serviceDefs).flatMap fun d =>
+    match lookupNames fieldNames d.id with
+    | none => []   -- no registered type: named under api= / service=
+    | some gs =>
+      if (fieldParamNames d).length != gs.length then [s!"{d.name.toString}:<{gs.length}-fields>"]
+      else (badNamePairs fieldNames d).map fun pg => s!"{d.name.toString}:{pg.1.toString}/{pg.2.toString}"
+  -- the name table carries the registry's own field names (text compared by compiled code)
+  let nameTable := regNamesChunksOk registryChunks fieldNamesChunks &&
+    (List.zip registry fieldNames).all fun (c, n) =>
+      c.fields.map (·.name) == n.2.map fun x => (BStr.toString ⟨x.1, x.2⟩)
   let dup := !(strictlySorted (registry.map (·.id)) && strictlySorted (schemaApi.map (·.id)) && strictlySorted (schemaMt.map (·.id)))
   s!"crc={names badCrc} api={names badApi} service={names badMt} rows={names badRows} " ++
   s!"reg={showList (badReg.map (·.name))} methods={showList (badMeth.map (·.name))} " ++
   s!"wrappers={showList (badWrap.map (·.name))} extra={showList extra} counts={tableCountsOk} dupids={dup} " ++
+  s!"names={showList badNames} nametable={nameTable} " ++
   s!"ndefs={schemaApi.length + schemaMt.length} nreg={registry.length} nmethods={methods.length}"
 
 def handle : List String → String
